@@ -164,7 +164,7 @@ def write_evidence(prop, tier, seed, level, agg, rule, assumptions, wall, violat
     return path
 
 
-def confirm_replay(exe, tape, env, times=3):
+def confirm_replay(exe, tape, env, times=3, wrap=None):
     """re-run a tape through the plain replay entry; True when it fails every time"""
     fails = 0
     msgs = []
@@ -175,7 +175,7 @@ def confirm_replay(exe, tape, env, times=3):
         e.setdefault("ASAN_OPTIONS", "detect_leaks=0:handle_abort=0")
         e.setdefault("UBSAN_OPTIONS", "print_stacktrace=1:halt_on_error=1")
         try:
-            r = subprocess.run([exe, "--replay", tape], env=e, stdout=subprocess.PIPE, stderr=subprocess.STDOUT, timeout=600)
+            r = subprocess.run(list(wrap or []) + [exe, "--replay", tape], env=e, stdout=subprocess.PIPE, stderr=subprocess.STDOUT, timeout=600)
             out = r.stdout.decode("utf-8", "replace")
             if r.returncode != 0:
                 fails += 1
